@@ -109,6 +109,12 @@ def script_checks(rep, rng, desc, trees, tmp, n):
     lib = build.load("plain")
     for k in range(n):
         m = serial.random_phys_model(rng, max_cells=3)
+        if k < 12:          # the first cases also go through trajectory files: grids, half of them reflecting with >= 2 cells (coarse-grainable)
+            m = serial.random_phys_model(rng, max_cells=4, graph=False)
+            if k % 2 == 0:
+                while m.ncells() < 2:
+                    m = serial.random_phys_model(rng, max_cells=4, graph=False)
+                m.space["bc"] = (False, False, False)
         t = rng.choice(trees)
         times = {"dt": Fr(1, 64), "ts": [Fr(0), Fr(1, 16), Fr(1, 4)], "interval": Fr(1, 8), "seed": rng.randint(0, 99999),
                  "policy": rng.choice(["on_t_sample", "on_interval", "on_iteration"])}
@@ -152,11 +158,15 @@ def script_checks(rep, rng, desc, trees, tmp, n):
         except Exception as e:  # noqa
             rep.violation("script", "serial:save_rdscript-exception:" + type(e).__name__, dict(tag, exc=repr(e)[:200]))
         # trajectory files, both data modes
-        if k < max(4, n // 10) and m.space["type"] == "grid":
+        if k < max(12, n // 5) and m.space["type"] == "grid":
             try:
                 sc.init_state_processing = "auto"
-                out = simulate_script(sc, build.make_engine("euler", lib=lib))
-                for sep in (True, False):
+                outs = [simulate_script(sc, build.make_engine("euler", lib=lib))]
+                if not any(m.space["bc"]) and m.ncells() > 1:
+                    # a coarse-grained run: the trajectory's system (the grid) is not its script's system (the coarse graph)
+                    cg = [0] * m.ncells() if len(set(m.space["cell_env"])) == 1 else list(range(m.ncells()))
+                    outs.append(simulate_script(sc, build.make_engine("euler", lib=lib), cgmap=cg))
+                for out, sep in [(o, s) for o in outs for s in (True, False)]:
                     pth = os.path.join(tmp, "traj_%d_%d" % (k, sep))
                     save_rdtrajectory(out, pth, separate_data=sep)
                     back = load_rdtrajectory(pth + ".json")
@@ -164,9 +174,15 @@ def script_checks(rep, rng, desc, trees, tmp, n):
                           and np.array_equal(back.t.convert(serial.US0).value, out.t.convert(serial.US0).value)
                           and serial.diff(serial.phys_system(out.system), serial.phys_system(back.system)) is None
                           and serial.diff(serial.phys_script(out.script), serial.phys_script(back.script)) is None
-                          and back.engine_option == out.engine_option)
+                          and back.engine_option == out.engine_option
+                          and (list(back.cgmap) if back.cgmap is not None else None) == (list(out.cgmap) if out.cgmap is not None else None)
+                          and back.ncells() * back.nspecies() * back.nsamples() == len(back.data))
+                    rep.extra["trajectory_roundtrips"] = rep.extra.get("trajectory_roundtrips", 0) + 1
+                    if out.cgmap is not None:
+                        rep.extra["coarse_grained_trajectory_roundtrips"] = rep.extra.get("coarse_grained_trajectory_roundtrips", 0) + 1
                     if not ok:
-                        rep.violation("trajectory", "serial:trajectory-roundtrip", dict(tag, separate_data=sep))
+                        rep.violation("trajectory", "serial:trajectory-roundtrip" + (":coarse-grained" if out.cgmap is not None else ""),
+                                      dict(tag, separate_data=sep))
             except Exception as e:  # noqa
                 rep.violation("trajectory", "serial:trajectory-exception:" + type(e).__name__, dict(tag, exc=repr(e)[:200]))
 
